@@ -119,7 +119,14 @@ pub fn gen_case(ch: &mut Chooser) -> Case {
             Truth::DynBytes
         } else {
             let u = *ch.pick(&["Bytes", "Numeric", "Unsigned", "Signed", "Bool", "Address", "Selector", "Function", "Unsigned", "Address"]);
-            let w = fixed_width(u).unwrap_or_else(|| *ch.pick(&[8usize, 32, 64, 128, 160, 256]));
+            let w = fixed_width(u).unwrap_or_else(|| {
+                if u == "Bytes" && ch.chance(1, 5) {
+                    // raw data of a width that is not a whole number of bytes
+                    *ch.pick(&[4usize, 9, 12, 100, 250, 255])
+                } else {
+                    *ch.pick(&[8usize, 32, 64, 128, 160, 256])
+                }
+            });
             Truth::Word(u.to_string(), w)
         };
         truths.push(t);
@@ -321,10 +328,10 @@ pub fn check_case(c: &Case, acc: &mut Acc) -> CaseResult {
     acc.mark(key, nontrivial);
 
     let mut b = build(&c.set, 200_000);
-    match guard(|| b.checker.unify()) {
+    let layout = match guard(|| b.checker.unify()) {
         Err(p) => return fail(format!("unification {}", p.signature()), p.msg),
-        Ok(_) => {}
-    }
+        Ok(r) => r.ok(),
+    };
     if b.wd.fired() {
         acc.excluded("excluded_c03_budget");
         return CaseResult::Pass;
@@ -341,6 +348,30 @@ pub fn check_case(c: &Case, acc: &mut Acc) -> CaseResult {
                 )
             }
             Err(p) => return fail(format!("type_of {}", p.signature()), p.msg),
+        }
+    }
+    // the reported layout keeps a resolved width: even-numbered variables are the storage slots 0, 2, 4..
+    if let Some(layout) = &layout {
+        for (i, t) in types.iter().enumerate() {
+            let TE::Word { width: Some(w), .. } = t else { continue };
+            if i % 2 != 0 {
+                continue;
+            }
+            let rows: Vec<_> = layout
+                .slots()
+                .iter()
+                .filter(|s| crate::subj::from_u256(s.index.0) == crate::refword::W::from_u64(i as u64))
+                .collect();
+            if let [row] = rows.as_slice() {
+                acc.label("layout-width-compared");
+                let reported = crate::props::c04::width_of(&row.typ);
+                if row.offset == 0 && reported.is_some() && reported != Some(*w) {
+                    return fail(
+                        "the reported layout does not keep the resolved width of a word".into(),
+                        format!("slot {i}: resolved {t:?}, reported {:?}", row.typ),
+                    );
+                }
+            }
         }
     }
     let mut root = |i: usize| -> usize {
